@@ -1357,6 +1357,8 @@ void ares_set_server_state_callback(ares_channel_t            *channel,
   if (channel == NULL) {
     return; /* LCOV_EXCL_LINE: DefensiveCoding */
   }
+  ares_channel_lock(channel);
   channel->server_state_cb      = cb;
   channel->server_state_cb_data = data;
+  ares_channel_unlock(channel);
 }
